@@ -77,6 +77,8 @@ func tail(s string, n int) string {
 var rewritePkgs = []string{
 	"src.elv.sh/pkg/eval",
 	"src.elv.sh/pkg/eval/vars",
+	"src.elv.sh/pkg/cli",
+	"src.elv.sh/pkg/edit/highlight",
 	"src.elv.sh/zzverif/h",
 }
 
